@@ -25,6 +25,12 @@ ID = "C07"
 LEVEL = "fault_enumeration"
 SHARDS = 4
 CASE_TIMEOUT = 300  # generous: a loaded machine must not turn a slow case into a reported hang
+
+
+def CASE_TIMEOUT_FOR(case):
+    """A whole schedule exploration may take seconds on a loaded machine; one program under a handful
+    of fault sequences takes milliseconds, so 45 s is already four orders of magnitude of slack."""
+    return 300 if "thr" in case else 45
 RULE = (
     "programs = forests <= N nodes x <= k deviations over {message api incl. typed with raising "
     "serializer, 6+20 field sets (20 hostile: lock / generator / uncopyable object / 600-deep list, raising __str__/__repr__, non-str dict keys, ints beyond "
